@@ -201,6 +201,8 @@ def build_call(L, tool, par, S, F, rec):
 
 def fault_plan(case):
     """Which use fails: ("pull", src, ordinal) / ("call", f, ordinal) / None."""
+    if case.get("plan"):
+        return tuple(case["plan"])     # random drivers name the failing use directly
     if not case.get("fault"):
         return None
     log = case["log"]
@@ -333,7 +335,7 @@ def execute(case, L, *, sync=False, flav=None, susp=0, fault_kind="exc", cancel_
 
     thunk = build_call(L, tool, par, S, F, rec)
     nnext = case["nnext"]
-    closes = case["log"][-1]["ev"] == "close"
+    closes = case["closes"] if "closes" in case else case["log"][-1]["ev"] == "close"
     it = None
     try:
         if tool in AGGREGATIONS:
